@@ -353,7 +353,7 @@ def _nexus_matrix_block(draw, labels, label_texts, ntax_declared_before, fancy, 
     data_type = draw(st.sampled_from(["dna", "dna", "dna", "protein", "standard", "standard", "rna", "continuous"]))
     nchar = draw(st.integers(1, max_chars))
     interleaved = data_type != "continuous" and nchar >= 2 and draw(st.integers(0, 2)) == 0
-    matchchar = data_type in ("dna", "protein") and ntax >= 2 and draw(st.integers(0, 5)) == 0
+    matchchar = data_type in ("dna", "protein") and ntax >= 2 and draw(st.integers(0, 3)) == 0
     rows, texts = draw(matrix_cells(data_type, ntax, nchar, multistate=data_type in ("dna", "standard") and fancy))
     kind = draw(st.sampled_from(["DATA", "CHARACTERS"])) if ntax_declared_before else "DATA"
     sp = lambda: draw(_ws(fancy))
@@ -607,9 +607,9 @@ FASTA_LABELS = PLAIN_LABELS + SPACED_LABELS + ["gi|123|ref", "seq1 Homo sapiens 
 def phylip_docs(draw, max_taxa=5, max_chars=10, fancy=True):
     strict = draw(st.booleans())
     interleaved = draw(st.booleans())
-    data_type = draw(st.sampled_from(["dna", "dna", "protein", "standard", "rna"]))
+    data_type = draw(st.sampled_from(["dna", "dna", "protein", "standard", "rna", "continuous", "continuous"]))
     ntax = draw(st.integers(1, max_taxa))
-    nchar = draw(st.integers(1, max_chars))
+    nchar = draw(st.integers(1, max_chars if data_type != "continuous" else max(1, max_chars // 2)))
     pool = PHYLIP_STRICT_LABELS if strict else PHYLIP_RELAXED_LABELS
     labels = draw(st.lists(st.sampled_from(pool), min_size=ntax, max_size=ntax, unique_by=lambda s: s.lower()))
     rows, texts = draw(matrix_cells(data_type, ntax, nchar, case_mix=True))
@@ -651,7 +651,7 @@ def phylip_docs(draw, max_taxa=5, max_chars=10, fancy=True):
 
 @st.composite
 def fasta_docs(draw, max_taxa=5, max_chars=12, fancy=True):
-    data_type = draw(st.sampled_from(["dna", "dna", "protein", "rna"]))
+    data_type = draw(st.sampled_from(["dna", "dna", "protein", "rna", "standard"]))
     ntax = draw(st.integers(1, max_taxa))
     labels = draw(st.lists(st.sampled_from(FASTA_LABELS), min_size=ntax, max_size=ntax, unique_by=lambda s: s.lower()))
     out = draw(st.sampled_from(["", "", "\n"])) if fancy else ""
